@@ -179,6 +179,7 @@ func RunCase(es graphql.ExecutableSchema, c Case) Result {
 			st.mu.Unlock()
 		}
 		handler, hctx := ex.DispatchOperation(ctx, rc)
+		var held []json.RawMessage
 		for k := 0; ; k++ {
 			if isSub {
 				st.mu.Lock()
@@ -195,6 +196,18 @@ func RunCase(es graphql.ExecutableSchema, c Case) Result {
 				p.Data = nil
 			}
 			res.Payloads = append(res.Payloads, p)
+			if !isSub {
+				// the payloads of one query (initial + deferred groups) are held by transports that batch them: what
+				// was returned must not change when the next payload is produced (subscription events are written
+				// out one at a time and do share a buffer)
+				held = append(held, resp.Data)
+				for hi, hd := range held[:len(held)-1] {
+					if !bytes.Equal(hd, res.Payloads[hi].Data) && res.Crash == "" {
+						res.Crash = fmt.Sprintf("payload %d changed after it was returned, while payload %d was produced: now %q, was %q",
+							hi, len(held)-1, truncate(string(hd), 200), truncate(string(res.Payloads[hi].Data), 200))
+					}
+				}
+			}
 			if !isSub && (resp.HasNext == nil || !*resp.HasNext) {
 				break
 			}
@@ -691,4 +704,11 @@ func DocToJSON(d *ast.QueryDocument, op *ast.OperationDefinition) *DocJSON {
 		out.Frags = append(out.Frags, FragJSON{Name: f.Name, TypeCond: f.TypeCondition, Sels: sels(f.SelectionSet)})
 	}
 	return out
+}
+
+func truncate(s string, n int) string {
+	if len(s) > n {
+		return s[:n] + "..."
+	}
+	return s
 }
